@@ -16,6 +16,7 @@ require (
 	github.com/buildbarn/bb-storage v0.0.0-20260805174928-33530b6bb903
 	github.com/buildbarn/go-xdr v0.0.0-20240702182809-236788cf9e89
 	github.com/google/uuid v1.6.0
+	github.com/hanwen/go-fuse/v2 v2.10.1
 	github.com/prometheus/client_golang v1.23.2
 	go.etcd.io/gofail v0.2.0
 	golang.org/x/sync v0.20.0
@@ -73,7 +74,6 @@ require (
 	github.com/grpc-ecosystem/go-grpc-middleware v1.4.0 // indirect
 	github.com/grpc-ecosystem/go-grpc-prometheus v1.2.0 // indirect
 	github.com/grpc-ecosystem/grpc-gateway/v2 v2.29.0 // indirect
-	github.com/hanwen/go-fuse/v2 v2.10.1 // indirect
 	github.com/jhump/protoreflect/v2 v2.0.0-beta.2 // indirect
 	github.com/jmespath/go-jmespath v0.4.0 // indirect
 	github.com/kballard/go-shellquote v0.0.0-20180428030007-95032a82bc51 // indirect
